@@ -16,21 +16,21 @@ Lemma scan_pending f : forall code pend kind j,
   Z.of_nat j < pend -> (j < length code)%nat ->
   nth_error (fst (scan f code pend kind)) j = Some kind.
 Proof.
-  induction code as [|w rest IH]; intros pend kind j Hj Hl; [simpl in Hl; lia|].
+  induction code as [|w rest IH]; intros pend kind j Hj Hl; [cbn [length] in Hl; lia|].
   cbn [scan]. destruct (Z.ltb_spec 0 pend) as [Hp|Hp]; [|lia].
   specialize (IH (pend - 1) kind). destruct (scan f rest (pend - 1) kind) as [t e]. cbn [fst] in *.
-  destruct j as [|j]; [reflexivity|]. cbn [nth_error]. apply IH; [lia|simpl in Hl; lia].
+  destruct j as [|j]; [reflexivity|]. cbn [nth_error]. apply IH; [lia|cbn [length] in Hl; lia].
 Qed.
 
 Lemma scan_pending_end f : forall code pend kind,
   0 <= pend -> (Z.to_nat pend < length code)%nat ->
   nth_error (fst (scan f code pend kind)) (Z.to_nat pend) = Some 0.
 Proof.
-  induction code as [|w rest IH]; intros pend kind Hp Hl; [simpl in Hl; lia|].
+  induction code as [|w rest IH]; intros pend kind Hp Hl; [cbn [length] in Hl; lia|].
   cbn [scan]. destruct (Z.ltb_spec 0 pend) as [Hpos|Hz].
   - specialize (IH (pend - 1) kind). destruct (scan f rest (pend - 1) kind) as [t e]. cbn [fst] in *.
     replace (Z.to_nat pend) with (S (Z.to_nat (pend - 1))) by lia. cbn [nth_error].
-    apply IH; [lia|simpl in Hl; lia].
+    apply IH; [lia|cbn [length] in Hl; lia].
   - assert (pend = 0) by lia. subst pend.
     destruct (group_of f w) as [k knd]. destruct (scan f rest k knd) as [t e]. reflexivity.
 Qed.
@@ -52,10 +52,10 @@ Proof.
     + assert (Hinv' : 0 < pend - 1 -> kind <> 0) by (intros; apply Hinv; lia).
       destruct (IH Hinv' i w Hw Ht) as [IH1 IH2]. split.
       * intros j Hj1 Hj2 Hj3. replace (S i + j)%nat with (S (i + j)) by lia. cbn [nth_error].
-        apply IH1; [assumption|assumption|simpl in Hj3; lia].
+        apply IH1; [assumption|assumption|cbn [length] in Hj3; lia].
       * intros Hk Hl. replace (S i + 1 + Z.to_nat (fst (group_of f w)))%nat
           with (S (i + 1 + Z.to_nat (fst (group_of f w)))) by lia. cbn [nth_error].
-        apply IH2; [assumption|simpl in Hl; lia].
+        apply IH2; [assumption|cbn [length] in Hl; lia].
   - destruct (group_of f w0) as [k0 knd0] eqn:Eg.
     pose proof (scan_pending f rest k0 knd0) as Hpend.
     pose proof (scan_pending_end f rest k0 knd0) as Hend.
@@ -63,16 +63,16 @@ Proof.
     destruct i as [|i]; cbn [nth_error] in Hw, Ht.
     + inversion Hw; subst w0. rewrite Eg. cbn [fst snd]. split.
       * intros j Hj1 Hj2 Hj3. destruct j as [|j]; [lia|]. cbn [Nat.add nth_error].
-        apply Hpend; [lia|simpl in Hj3; lia].
+        apply Hpend; [lia|cbn [length] in Hj3; lia].
       * intros Hk Hl. replace (0 + 1 + Z.to_nat k0)%nat with (S (Z.to_nat k0)) by lia. cbn [nth_error].
-        apply Hend; [lia|simpl in Hl; lia].
+        apply Hend; [lia|cbn [length] in Hl; lia].
     + assert (Hinv' : 0 < k0 -> knd0 <> 0) by (apply (group_kind_nonzero f w0), Eg).
       destruct (IH Hinv' i w Hw Ht) as [IH1 IH2]. split.
       * intros j Hj1 Hj2 Hj3. replace (S i + j)%nat with (S (i + j)) by lia. cbn [nth_error].
-        apply IH1; [assumption|assumption|simpl in Hj3; lia].
+        apply IH1; [assumption|assumption|cbn [length] in Hj3; lia].
       * intros Hk Hl. replace (S i + 1 + Z.to_nat (fst (group_of f w)))%nat
           with (S (i + 1 + Z.to_nat (fst (group_of f w)))) by lia. cbn [nth_error].
-        apply IH2; [assumption|simpl in Hl; lia].
+        apply IH2; [assumption|cbn [length] in Hl; lia].
 Qed.
 
 Lemma zth_nat {A} (l : list A) (i : nat) : zth l (Z.of_nat i) = nth_error l i.
@@ -99,7 +99,7 @@ Proof.
     + replace (pc + j) with (Z.of_nat (Z.to_nat pc + Z.to_nat j)) by lia. rewrite zth_nat.
       apply S1; lia.
     + destruct (group_of f w) as [k' knd'] eqn:Eg. cbn [snd].
-      apply (group_kind_nonzero f w k' knd' Eg). subst k. rewrite Eg in Hj. cbn [fst] in Hj. lia.
+      apply (group_kind_nonzero f w k' knd' Eg). subst k. cbn [fst] in Hj. lia.
   - intros Hk Hl. unfold is_head.
     replace (pc + 1 + k) with (Z.of_nat (Z.to_nat pc + 1 + Z.to_nat k)) by lia. rewrite zth_nat.
     fold k in S2. rewrite S2; [reflexivity|lia|lia].
